@@ -103,7 +103,7 @@ class TreeGen:
                 if k in val:
                     continue
                 t, v = self.value(depth + 1, budget)
-                toks += ["k" + k.hex()] + t
+                toks += [("K" if rng.random() < 0.15 else "k") + k.hex()] + t
                 val[k] = v
             toks.append("}")
             self.st("object")
@@ -133,7 +133,7 @@ class TreeGen:
                     toks, val = ["["] + toks + ["]"], [val]
                 else:
                     k = self.rbytes(key=True)
-                    toks, val = ["{", "k" + k.hex()] + toks + ["}"], {k: val}
+                    toks, val = ["{", ("K" if rng.random() < 0.15 else "k") + k.hex()] + toks + ["}"], {k: val}
             self.st("deep_spine")
             return toks, val
         return self.value(0, [rng.choice([1, 4, 12, self.budget])])
